@@ -52,6 +52,7 @@ def values(tier, seed):
             Decimal("1.50"), Decimal("1E+3"), Decimal("0.000000000000000000000000000001"),
             Decimal("12345678901234567890.1234567890123456789"), Decimal("-7.000"),
             "w/5", "2*x", "", "1.5", "1e-9", "1E-9", "2.5E6", "-7E+3", "1_0", ".5", "5.", "+3", " 3 ", "nan", "inf", "abc def",
+            "  lead", "trail\t", " both ", "line\n", "   ", "\u00a0nbsp\u00a0", "a  b",
             "0x10", str(Decimal("1E-9")), str(Decimal("12E+7")), h.Literal("a+b"), h.Literal(""),
             _StrEnum.TYPICAL, _PlainEnum.FAST, _LoudStr("quiet")]
     for p in Prefix:
@@ -151,6 +152,9 @@ def cases(tier, seed):
             yield ("ideal:" + name, k, v)
     for k, v in enumerate(vs):
         yield ("scalar", k, v)
+    for k, v in enumerate(vs):
+        if isinstance(v, str) and type(v) is str:
+            yield ("typed-string", k, v)
     for k in range(3):
         yield ("pulse-like-names", k, None)
     for k, name in enumerate(IDEAL):
@@ -191,6 +195,32 @@ def check_case(case):
         want = [Fraction(v)] if not isinstance(v, float) else [Fraction(v), Fraction(Decimal(repr(v)))]
         if got not in want:
             return ("scalar.number-value", f"to_scalar({v!r}) == {r!r} (value {got}), expected {want[-1]}", w)
+        return None
+    if kind == "typed-string":
+        # string-typed fields of a parameter class (an external module's, and the `model` of the physical primitives):
+        # the text reaches the package character for character
+        from typing import Optional as _Opt
+        PS = h.paramclass(type("PStr", (), {"s": h.Param(dtype=str, desc="s", default=""),
+                                             "o": h.Param(dtype=_Opt[str], desc="o", default=None)}))
+        E = h.ExternalModule(name="PEs", port_list=[h.Inout(name="a")], paramtype=PS, desc="", domain="pd")
+        m = h.Module(name="PS")
+        m.a = h.Signal()
+        try:
+            m.e = E(PS(s=v, o=v))(a=m.a)
+            prims = []
+            for pname in ("Mos", "Bipolar", "Diode", "PhysicalResistor", "PhysicalCapacitor", "ThreeTerminalResistor"):
+                call = getattr(h.primitives, pname)(model=v)
+                prims.append(pname)
+                m.add(call(**{p.name: m.a for p in call.prim.port_list}), name="x" + pname)
+            pkg = h.to_proto(m)
+        except Exception as e:
+            return (f"typed-string.raises.{type(e).__name__}", f"string parameter {v!r}: {type(e).__name__}: {str(e)[:100]}", w)
+        insts = {i.name: {p.name: p.value for p in i.parameters} for i in pkg.modules[-1].instances}
+        for iname, pn in [("e", "s"), ("e", "o")] + [("x" + p_, "model") for p_ in prims]:
+            pv = insts[iname].get(pn)
+            if pv is None or pv.WhichOneof("value") != "literal" or pv.literal != v:
+                return ("typed-string.value", f"{iname}.{pn} given {v!r}, exported "
+                                              f"{(pv.literal if pv is not None else None)!r}", w)
         return None
     if kind == "explicit-none":
         # a parameter explicitly given as None is omitted from the export, whatever its declared default
